@@ -103,6 +103,10 @@ def correspondence(ctx):
             x = np.linspace(0.5, 3.0, 25)
             th = rng.choice([-1, 1], size=2) * rng.uniform(0.6, 2.2, size=2)
             y = th[0] + th[1] * x + rng.normal(0, 0.15, size=len(x)) if (n + di) % 2 else th[0] / x + th[1] + rng.normal(0, 0.15, size=len(x))
+            if di == nds - 1:
+                # a coefficient that is not zero but lies within one precision step of zero: the zero-snapping / re-evaluation path of
+                # convert_params (line through the origin for n odd, a constant for n even)
+                y = (th[1] * x if n % 2 else th[0] + 0 * x) + rng.normal(0, 0.15, size=len(x))
             sig = np.full(len(x), 0.15)
             ddir = os.path.join(work, "data_%d_%d" % (n, di))
             fitlib.write_data(ddir, "d.txt", x, y, sig)
@@ -135,6 +139,39 @@ def correspondence(ctx):
                 rep.case(key=(n, di, i, "formula" if "formula" in rec else "labels"),
                          sample={"n": n, "tree": rec["tree"], "entry": "formula" if "formula" in rec else "labels", "single": {k: rec.get(k) for k in ("nll", "DL", "error")}, "pipeline": rec["pipeline"]})
                 rep.traces += 1
+    # trees outside the small libraries: three parameters (always optimised in linear space) and log_opt on/off, both entry points,
+    # on data with all coefficients significant and on data where one coefficient is unresolved; no pipeline row exists for them
+    # (complexity 9-11), so they are compared with the closed form and with the sum clause only
+    extra = [(["+", "a0", "+", "*", "a1", "x", "*", "a2", "pow", "x", "2"], "a0 + a1*x + a2*x**2", lambda t, x: t[0] + t[1] * x + t[2] * x ** 2),
+             (["+", "a0", "+", "*", "a1", "x", "/", "a2", "x"], "a0 + a1*x + a2/x", lambda t, x: t[0] + t[1] * x + t[2] / x),
+             (["+", "a0", "*", "a1", "x"], "a0 + a1*x", lambda t, x: t[0] + t[1] * x),
+             (["*", "a0", "x"], "a0*x", lambda t, x: t[0] * x)]
+    for ei, (labels, formula, f) in enumerate(extra):
+        for variant in (["significant", "unresolved"] if ctx.quick else ["significant", "unresolved", "significant2"]):
+            rng = np.random.default_rng((ctx.seed + 1000 + 31 * ei + len(variant)) % 2 ** 31)
+            x = np.linspace(0.5, 3.0, 25)
+            th = rng.uniform(0.6, 2.2, size=3)                  # positive: log_opt searches positive parameters only for <= 2 parameters
+            if variant == "unresolved" and len(labels) > 3:
+                th[0] = 0.0
+            y = f(th, x) + rng.normal(0, 0.15, size=len(x))
+            sig = np.full(len(x), 0.15)
+            ddir = os.path.join(work, "data_x_%d_%s" % (ei, variant))
+            fitlib.write_data(ddir, "d.txt", x, y, sig)
+            jobs = []
+            for lo_ in (False, True):
+                jobs.append({"labels": labels, "index": -1, "log_opt": lo_})
+                jobs.append({"formula": formula, "index": -1, "log_opt": lo_})
+            rc, out, err = esrv.run_py(repo, IMPL, [ddir, "d.txt", json.dumps(fitlib.SHIPPED["core_maths"]), json.dumps(jobs), str(ctx.seed % 10000)], timeout=2400)
+            if rc != 0:
+                rep.fail("broken-correspondence", "single-tree driver failed", "C20:driver", observed=err[-1200:], theorem="C20 tie")
+                continue
+            for rec in json.loads(out):
+                rec.update(n=len(labels), string=formula, tree=labels, x=x.tolist(), y=y.tolist(), sig=sig.tolist(), pipeline=None, variant=variant)
+                ctx.cases.append(rec)
+                rep.case(key=("extra", ei, variant, rec.get("log_opt"), "formula" if "formula" in rec else "labels"),
+                         sample={"tree": labels, "variant": variant, "log_opt": rec.get("log_opt"), "entry": "formula" if "formula" in rec else "labels",
+                                 "single": {k: rec.get(k) for k in ("nll", "DL", "error")}})
+                rep.traces += 1
     shutil.rmtree(work, ignore_errors=True)
     rep.rule = ("affine-in-parameter trees (1-2 parameters) of core_maths libraries fitted through single_function (labels) and fit_from_string (formula) and by the real four-stage pipeline on the same "
                 "Gaussian data; compared with each other and with the independent closed form; tolerance 2e-2 as upstream")
@@ -147,6 +184,7 @@ def search(ctx):
     n_ok = 0
     for rec in getattr(ctx, "cases", []):
         inp = {k: rec[k] for k in ("n", "tree", "string", "x", "y", "sig")}
+        inp["log_opt"] = rec.get("log_opt", False)
         inp["entry"] = "formula" if "formula" in rec else "labels"
         if "error" in rec:
             rep.fail("failing-input", "single-tree API raises on %r: %s" % (rec.get("formula") or rec["tree"], rec["error"]), "C20:single-crash", input=inp, observed=rec["error"])
@@ -168,7 +206,7 @@ def search(ctx):
                     rec["DL"] - rec["nll"] - fitlib.aifeyn_of(rec["tree"]), cf["codelen"], rec["tree"]), "C20:dl-not-sum", input=inp, expected=cf)
                 continue
         # (c) single vs pipeline row of the same tree
-        if "formula" not in rec and math.isfinite(p["DL"]):
+        if "formula" not in rec and p is not None and math.isfinite(p["DL"]):
             if abs(rec["nll"] - p["nll"]) > TOL or abs(rec["DL"] - p["DL"]) > TOL:
                 rep.fail("failing-input", "single-tree fit of %r gives (-logL, DL) = (%.5f, %.5f) but the pipeline reports (%.5f, %.5f) for the same tree" % (
                     rec["tree"], rec["nll"], rec["DL"], p["nll"], p["DL"]), "C20:single-vs-pipeline", input=inp, observed={"nll": rec["nll"], "DL": rec["DL"]}, expected=p)
